@@ -8,8 +8,9 @@ inputs (what `replay` accepts):
   {"part": "program", "stmts": [S...], "steps": n, "clause": optional, "name": optional variable name}
       S = {"k": "assign", "lhs": name, "sub": E|null, "rhs": E, "loops": [[ident, E, E]]}
         | {"k": "if", "cond": E, "then": [S...], "else": [S...]}
+        | {"k": "scall", "lhs": [names], "fn": function id, "args": [E...], "kw": [[name, E], ...]}   (keywords in the order written)
       E = ["v", name] | ["c", number | [re, im]] | ["sub", name, E] | [op, E, E] for op in + - * / ** < min max and
-        | ["not", E] | ["call", function id, [E...]]
+        | ["not", E] | ["call", function id, [E...]] | ["callkw", function id, [E...], [[name, E], ...]]
       programs are built with the real CodeBuilder (one phase), inferred with the real infer_kinds and executed
       statement by statement by the real NumpyInterpreter.  Initial state: <state>y (user type "y", 3 entries),
       <state>w (a real array of 3 entries supplied by the user), <t>=0, <dt>=0.5.
@@ -232,6 +233,10 @@ def mk(e):
         return P.LogicalNot(mk(e[1]))
     if t == "call":
         return P.Call(P.Variable(e[1]), tuple(mk(a) for a in e[2]))
+    if t == "callkw":
+        # keyword arguments in the order written: ["callkw", fid, [E...], [[name, E], ...]]
+        from constantdict import constantdict
+        return P.CallWithKwargs(P.Variable(e[1]), tuple(mk(a) for a in e[2]), constantdict({n: mk(v) for n, v in e[3]}))
     raise ValueError("bad expression tag %r" % (t,))
 
 
@@ -254,7 +259,11 @@ def build_program(inp):
 
     def emit(stmts):
         for s in stmts:
-            if s["k"] == "assign":
+            if s["k"] == "scall":
+                # statement-level call: (lhs...) <- fn(args..., kw in the order written)
+                e_ = ["callkw", s["fn"], s.get("args") or [], s.get("kw") or []] if s.get("kw") else ["call", s["fn"], s.get("args") or []]
+                cb.assign(tuple(P.Variable(n) for n in s["lhs"]), mk(e_))
+            elif s["k"] == "assign":
                 lhs = P.Variable(s["lhs"])
                 if s.get("sub"):
                     lhs = lhs[mk(s["sub"])]
@@ -1090,6 +1099,26 @@ def bounded(payload):
             for perm in itertools.permutations(range(n)):
                 consider({"part": "program", "stmts": chain[:n], "steps": 1, "order": list(perm)})
                 parts["refinement_chain_orders"] += 1
+    # keyword arguments written in another order than the function declares them; several results; an argument whose kind is
+    # refined after the call statement was first inferred (every presentation order of the statement list)
+    cA = {"k": "scall", "lhs": ["c"], "fn": "<func>carr", "args": [], "kw": []}
+    for prog in ([cA, {"k": "assign", "lhs": "ct", "sub": None, "loops": [],
+                       "rhs": ["callkw", "<builtin>transpose", [], [["a_cols", C(3)], ["a", V("c")]]]},
+                  {"k": "assign", "lhs": "e", "sub": None, "loops": [],
+                   "rhs": ["*", C(2), ["callkw", "<builtin>transpose", [], [["a_cols", C(1)], ["a", V("c")]]]]}],
+                 [cA, {"k": "scall", "lhs": ["u", "sg", "vt"], "fn": "<builtin>svd", "args": [], "kw": [["a_cols", C(3)], ["a", V("c")]]}],
+                 [cA, {"k": "scall", "lhs": ["u", "sg", "vt"], "fn": "<builtin>svd", "args": [V("c")], "kw": [["a_cols", C(3)]]},
+                  {"k": "scall", "lhs": ["m"], "fn": "<builtin>matmul", "args": [],
+                   "kw": [["b_cols", C(1)], ["a_cols", C(3)], ["b", V("c")], ["a", V("<state>w")]]}]):
+        consider({"part": "program", "steps": 1, "stmts": prog})
+        parts["keyword_order_and_multi_result_programs"] = parts.get("keyword_order_and_multi_result_programs", 0) + 1
+    late = [{"k": "assign", "lhs": "z", "sub": None, "loops": [], "rhs": ["*", V("<state>w"), C([0.0, 0.5])]},
+            {"k": "assign", "lhs": "w2", "sub": None, "loops": [], "rhs": ["+", V("<state>w"), V("z")]},
+            {"k": "scall", "lhs": ["u", "sg", "vt"], "fn": "<builtin>svd", "args": [V("w2"), C(3)], "kw": []},
+            {"k": "scall", "lhs": ["<state>w"], "fn": "<func>arr", "args": [], "kw": []}]
+    for perm in itertools.permutations(range(4)):
+        consider({"part": "program", "steps": 1, "stmts": late, "order": list(perm)})
+        parts["keyword_order_and_multi_result_programs"] += 1
     # constants by TYPE: complex values with a zero imaginary part, numpy scalar types (complex64 is no subclass of complex)
     for c in (C([-4.0, 0.0]), C([0.0, 0.0]), ["npc", "complex64", [0.0, 1.0]], ["npc", "complex64", [2.0, 0.0]],
               ["npc", "complex128", [1.0, 0.0]], ["npc", "float32", 2.5], ["npc", "float64", -1.5], ["npc", "int64", 3]):
